@@ -45,8 +45,8 @@ from jpsim.store import wrap
 
 PROPERTY = "C08"
 BUDGET = {
-    "quick": {"faultfree": 9000, "faulty": 9000},
-    "thorough": {"faultfree": 250000, "faulty": 250000},
+    "quick": {"faultfree": 50000, "faulty": 50000},
+    "thorough": {"faultfree": 1000000, "faulty": 1000000},
 }
 FAULT_KINDS = ["delay", "yield", "stall", "cancel", "storeerr"]
 TIME_UNIT = "virtual seconds on SimLoop's clock (orders getter completions and stalls); logical steps = loop iterations"
